@@ -17,7 +17,10 @@ from ..terms import ev
 
 KIND_OF = {"logistic_diag_src1": "logistic", "logistic_scalar_src1": "logistic", "logistic_diag_nosrc": "logistic",
            "logistic_univariate": "logistic", "linear_diag_src1": "linear", "linear_scalar_src1": "linear",
-           "shared_speed_src1": "shared"}
+           "shared_speed_src1": "shared",
+           # the joint model: its longitudinal part is the logistic curve; estimates carry E extra columns (event predictions, not
+           # part of this property); only the dictionary layout is requested (the table layout cannot be built for this model)
+           "joint_src1": "logistic"}
 
 
 def totuple(t):
@@ -52,6 +55,7 @@ class ModelUnderTest:
             self.model.load_parameters(p)
         st = self.model.state
         self.F = self.model.dimension
+        self.E = int(getattr(self.model, "nb_events", 0) or 0) if self.config.startswith("joint") else 0
         self.S = int(getattr(self.model, "source_dimension", 0) or 0)
         g = st["g"].reshape(-1).double()
         self.g = g
@@ -117,7 +121,7 @@ def run_estimate_case(mut: ModelUnderTest, case, rnd):
                     got[i] = np.asarray(arr)
                 rec["rows"] = rows
                 pairs = [(i, lbl, got[i][k]) for i in got for k, lbl in enumerate([l for j, l in req if j == i]) if k < len(got[i])]
-                shape_ok = all(np.asarray(a).shape == (len([1 for j, _ in req if j == i]), mut.F) for i, a in out.items())
+                shape_ok = all(np.asarray(a).shape == (len([1 for j, _ in req if j == i]), mut.F + mut.E) for i, a in out.items())
             else:
                 ix = pd.MultiIndex.from_tuples([(i, age[(i, lbl)]) for i, lbl in req], names=["ID", "TIME"])
                 out = mut.model.estimate(ix, ips)
@@ -154,6 +158,7 @@ def run_estimate_case(mut: ModelUnderTest, case, rnd):
         with warnings.catch_warnings():
             warnings.simplefilter("ignore")
             est = np.asarray(mut.model.estimate({i0: grid + [tau0 - 400.0, tau0 + 400.0]}, ips0)[i0], dtype=float)
+        est = est[:, : mut.F]
         body = est[: len(grid)]
         positive_speed = mut.kind != "linear" or bool((mut.v0 > 0).all())   # (v0 = exp(log_v0) > 0 always)
         rec["monotone"] = bool(np.all(np.diff(body, axis=0) >= 0)) if positive_speed else True
